@@ -744,6 +744,25 @@ def _r4_templates(ctx, rule_decode="R4", rule_omit="R6", sent=None):
 
 # -------------------------------------------------------------------- R5 dataclass calls
 
+RENDER_KEEP = ("_prepare_ode_content", "_prepare_renorm_content", "_render", "_prepare_contents")
+
+
+def render_functions(pkg):
+    """The two `render` methods that build a NetworkInfo (TemplateLoader.render, EnzoPatch.render), each with the helpers it was split
+    into put back (pymodel.Package.expanded): `info = self._collect_network_info(network)` is still the NetworkInfo(...) call it
+    returns.  -> [(file, class, method, FunctionDef)]"""
+    out = []
+    for file, cls, meth, keep in ((FILE, "TemplateLoader", "render", RENDER_KEEP), ("naunet/patches.py", "EnzoPatch", "render", ("_render", "_render_derived_field"))):
+        if cls not in pkg.classes or pkg.classes[cls].methods.get(meth) is None:
+            continue
+        try:
+            fn = pkg.expanded(cls, meth, keep=keep)
+        except RecursionError:
+            fn = pkg.classes[cls].methods[meth]
+        out.append((file, cls, meth, fn))
+    return out
+
+
 def dataclass_fields(pkg, name):
     ci = pkg.cls(name)
     return [s.target.id for s in ci.node.body if isinstance(s, ast.AnnAssign) and isinstance(s.target, ast.Name)]
@@ -932,12 +951,7 @@ def _r5(ctx, m):
     # --- NetworkInfo (2 sites)
     fields = dataclass_fields(pkg, "NetworkInfo")
     n = 0
-    for file, cls, meth in ((FILE, "TemplateLoader", "render"), ("naunet/patches.py", "EnzoPatch", "render")):
-        if cls not in pkg.classes:
-            continue
-        fn = pkg.classes[cls].methods.get(meth)
-        if fn is None:
-            continue
+    for file, cls, meth, fn in render_functions(pkg):
         ctx.saw(file, f"{cls}.{meth}")
         for c in ast.walk(fn):
             if isinstance(c, ast.Call) and ast.unparse(c.func) == "NetworkInfo":
